@@ -779,7 +779,8 @@ def _pre_k3_replace(r: int, p: int, t: int, preserve: bool, selection: bool) -> 
     if not (lo <= r < hi):
         return False
     if c.get('quick'):
-        if selection or ob.pick(RX, r) not in RX_QUICK or ob.pick(REPL, p) not in REPL_QUICK or ob.pick(TEXTS, t) not in TEXTS_QUICK:
+        # (round 6: `-at LINE-MATCHER` is part of the quick tier too: C18-r6m1 dropped the regex validator when it is present)
+        if ob.pick(RX, r) not in RX_QUICK or ob.pick(REPL, p) not in REPL_QUICK or ob.pick(TEXTS, t) not in TEXTS_QUICK:
             return False
     if ob.excluded(REGION_REPLACE_TEMPLATE):
         rx, repl = ob.pick(RX, r), ob.pick(REPL, p)
